@@ -15,9 +15,9 @@ peg::parser! {
         // Whitespace (accepts newlines, tabs, etc.)
         rule _() = quiet!{ [' ' | '\t' | '\n' | '\r']* }
 
-        // Case-insensitive keyword matcher
+        // Case-insensitive keyword matcher (whole word: `not_x`, `by2`, `for-x` are identifiers)
         rule ci(s: &'static str)
-            = kw:$(['a'..='z' | 'A'..='Z']+) {? if eq_ci(kw, s) { Ok(()) } else { Err("expected keyword") } }
+            = kw:$(['a'..='z' | 'A'..='Z']+) !['0'..='9' | '_' | '-'] {? if eq_ci(kw, s) { Ok(()) } else { Err("expected keyword") } }
 
         // ==========
         // ENTRY POINT
